@@ -99,18 +99,18 @@ Section NKeep.
 End NKeep.
 
 (* C15_fix_keeps_unique, node names, one run *)
-Theorem fix_keeps_unique_node_run g vx nx vn nn inits m a n :
+Theorem fix_keeps_unique_node_run g own vx nx vn nn inits m a n :
   NoDup (ev_nodes (events_graph g)) ->
   nn a = Some n -> n <> [] -> In a (ev_nodes (events_graph g)) ->
   (forall b, b <> a -> In b (ev_nodes (events_graph g)) -> nn b <> Some n) ->
-  forall s', fix_graph_names g vx nx vn nn inits m = (s', None) -> f_nn s' a = Some n.
+  forall s', fix_graph_names g own vx nx vn nn inits m = (s', None) -> f_nn s' a = Some n.
 Proof.
   intros ND Ha Hn Hin Hu s' H. unfold fix_graph_names in H.
   destruct (collect_names (events_graph g) vn nn inits) as [rv rn] eqn:Ec.
   assert (Hr : In n rn).
   { pose proof (collect_nodes (events_graph g) vn nn inits a n Hin Ha Hn) as X. rewrite Ec in X. exact X. }
   assert (K0 : NK nn rn (fun b => In b (ev_nodes (events_graph g))) a n (ev_nodes (events_graph g))
-                  (fx_init vx nx rv rn vn nn inits m)).
+                  (fx_init own vx nx rv rn vn nn inits m)).
   { constructor; simpl; auto. intros u x [<-|[]] []. }
   assert (HP : Forall (fun b => In b (ev_nodes (events_graph g))) (ev_nodes (events_graph g))) by (apply Forall_forall; auto).
   apply (nk_target _ _ _ _ _ _ _ (fx_events_nk nn rn _ a n Hn Hu Hr _ _ _ ND HP H K0)).
@@ -126,10 +126,17 @@ Proof.
   destruct (set_vname _ _ _ _) as [[x y]|]; reflexivity.
 Qed.
 
+Lemma process_value_rec_nn v s : f_nn (fst (process_value_rec v s)) = f_nn s.
+Proof.
+  unfold process_value_rec, fbind. pose proof (process_value_nn v s) as A.
+  destruct (process_value v s) as [s1 [e|]]; simpl in *; [exact A|].
+  destruct (negb (memN v (f_seen s))); simpl; exact A.
+Qed.
+
 Lemma process_values_nn ws : forall s, f_nn (fst (process_values ws s)) = f_nn s.
 Proof.
   induction ws as [|v r IH]; intros s; simpl; [reflexivity|].
-  unfold fbind. pose proof (process_value_nn v s) as A. destruct (process_value v s) as [s1 [e|]]; simpl in *; [exact A|].
+  unfold fbind. pose proof (process_value_rec_nn v s) as A. destruct (process_value_rec v s) as [s1 [e|]]; simpl in *; [exact A|].
   rewrite IH. exact A.
 Qed.
 
